@@ -235,7 +235,9 @@ CHECKS = {
             'size+1 is never exhausted). graft_refines_spec: graft(x) refines the set-level graft exactly (x replaced by the nested '
             'graph, dependees -> initial nodes, terminal nodes -> dependencies, constraints passed through an empty nested '
             'graph), with dependees/initial/terminal read through the abstraction (dependees_reads, '
-            'initial_terminal_spec). flatten (loop of grafts), '
+            'initial_terminal_spec); graft_preserves_order: when the nested graph is acyclic and shares no node with the outer '
+            'graph, a plain node has to come after another one in the grafted graph exactly when it had to before (one '
+            'round of flatten). flatten (the loop of grafts over the nested store), '
             'transitive reduction/closure, dependees, initial/terminal, <=, == are in the executable model and checked '
             'against DepGraph and against the set-level oracle on every run, but their theorems are not proved yet.',
             'Trusted: Lean kernel + standard axioms; correspondence sampled (exhaustive <= 4 nodes in thorough); node '
